@@ -1037,7 +1037,7 @@ func init() {
 			n := 0
 			for _, fname := range []string{"_abandoned", "_allInflight"} {
 				f := c.field("chunkPayloadData", fname)
-				for _, mn := range []string{"chunkPayloadData.abandoned", "chunkPayloadData.setAbandoned", "chunkPayloadData.setAllInflight"} {
+				for _, mn := range []string{"chunkPayloadData.abandoned", "chunkPayloadData.givenUp", "chunkPayloadData.setAbandoned", "chunkPayloadData.setAllInflight"} {
 					fn := c.P.Fn(mn)
 					if fn == nil {
 						continue
